@@ -98,6 +98,9 @@ def translate_pattern(pattern: str, flags: int = 0, xsd_version: str = '1.0',
             pos += 1
             subtracted_class = parse_character_class()
             pos += 1
+            if pattern[pos:pos + 1] != ']':
+                msg = "unterminated character class at position {}: {!r}"
+                raise RegexError(msg.format(pos, pattern))
             char_class -= subtracted_class
 
         return char_class
